@@ -853,6 +853,7 @@ class C17(Spec):
 
 
 C17.theorems = ["C17_varint_roundtrip", "C17_zigzag_roundtrip", "C17_tag_roundtrip", "C17_number_roundtrip",
+                "C17_roundtrip", "C17_backends_agree", "C17_known_classes", "C17_refuted_list_of_null",
                 "C17_roundtrip_partial", "C17_roundtrip_flat_partial", "C17_backends_agree_partial",
                 "C17_optional_null_fixed", "C17_refuted_choice_null", "C17_refuted_choice_list",
                 "C17_refuted_nested_list", "C17_refuted_bitvec_excess", "C04_proto_refuted_bit_vec_short",
